@@ -159,7 +159,7 @@ Qed.
 Definition ex06_spec (inp : list (str * (list scmd * ret_val))) : screen_spec :=
   {| sc_setup := []; sc_refresh := []; sc_show := []; sc_closed := []; sc_input := inp;
      sc_input_default := ([], None); sc_prompt_none := false; sc_input_required := true;
-     sc_no_separator := false; sc_skip_check := false; sc_pages := 0; sc_answer0 := AnsNoAttr; sc_custom := [] |}.
+     sc_no_separator := false; sc_skip_check := false; sc_pages := 0; sc_answer0 := AnsNoAttr; sc_custom := []; sc_setup_cmds := [] |}.
 Definition ex06_specl : list screen_spec :=
   [ex06_spec [([49%N], ([SPush 1 3], RProcessed)); ([50%N], ([SPushModal 2 0], RProcessed))];
    ex06_spec []; ex06_spec []].
@@ -169,6 +169,19 @@ Definition ex06_typed : list (option str) :=
 Definition ex06_acts : list saction := [SACmds [SSchedule 0 0]; SARun].
 Definition ex06_run := app_run_all (fun n => nth n ex06_specl default_spec) ex06_specl ex06_typed None false 3000 ex06_acts.
 Definition ex06_trace : list event := rev (trace (snd ex06_run)).
+(* a setup() that runs commands: screen 0's setup() pushes screen 1 modally with arguments 5 (T_SETUP_BEGIN); the modal
+   screen gets the first typed line (and closes), then setup() reports success and screen 0 gets the second line *)
+Definition su06_spec (cmds : list scmd) (inp : list (str * (list scmd * ret_val))) : screen_spec :=
+  {| sc_setup := []; sc_refresh := []; sc_show := []; sc_closed := []; sc_input := inp;
+     sc_input_default := ([], None); sc_prompt_none := false; sc_input_required := true;
+     sc_no_separator := false; sc_skip_check := false; sc_pages := 0; sc_answer0 := AnsNoAttr; sc_custom := [];
+     sc_setup_cmds := cmds |}.
+Definition su06_specl : list screen_spec :=
+  [su06_spec [SPushModal 1 5] []; su06_spec [] [([49%N], ([SCloseNow], RProcessed))]].
+Definition su06_typed : list (option str) := [Some [49%N]; Some [50%N]; None].
+Definition su06_acts : list saction := [SACmds [SSchedule 0 0]; SARun].
+Definition su06_run := app_run_all (fun n => nth n su06_specl default_spec) su06_specl su06_typed None false 3000 su06_acts.
+Definition su06_trace : list event := rev (trace (snd su06_run)).
 Definition user_events (tag : nat) (t : list event) : list (list nat * str) :=
   flat_map (fun e => match e with EUser tg a x => if (tg =? tag)%nat then [(a, x)] else [] | _ => [] end) t.
 
@@ -230,7 +243,7 @@ Definition legacy_app_run_all (specs : nat -> screen_spec) (specl : list screen_
 Definition f15_spec : screen_spec :=
   {| sc_setup := []; sc_refresh := [SIfCount 1 [] [SForceQuit]]; sc_show := [SIfCount 1 [SPush 0 2] []]; sc_closed := [];
      sc_input := []; sc_input_default := ([], Some RProcessed); sc_prompt_none := false; sc_input_required := true;
-     sc_no_separator := false; sc_skip_check := false; sc_pages := 0; sc_answer0 := AnsNoAttr; sc_custom := [] |}.
+     sc_no_separator := false; sc_skip_check := false; sc_pages := 0; sc_answer0 := AnsNoAttr; sc_custom := []; sc_setup_cmds := [] |}.
 Definition f15_typed : list (option str) := [Some [49%N]; Some [50%N]].
 Definition f15_acts : list saction := [SACmds [SSchedule 0 1]; SARun; SARun].
 Definition f15_trace : list event :=
